@@ -1072,9 +1072,20 @@ impl<'ast, 'res> Resolver<'ast, 'res> {
                                 match builtin {
                                     MemberBuiltin::ProcessCommand(ProcessCommandBuiltin::Cwd)
                                     | MemberBuiltin::Array(ArrayBuiltin::Join)
-                                        if !args.args.is_empty() =>
-                                    {
+                                    | MemberBuiltin::String(
+                                        StringBuiltin::Find | StringBuiltin::Split,
+                                    ) if !args.args.is_empty() => {
                                         self.expect_member_string_arg(field, args.args[0], *span);
+                                    }
+                                    MemberBuiltin::String(StringBuiltin::Replace) => {
+                                        for arg in args.args.iter().take(2) {
+                                            self.expect_member_string_arg(field, arg, *span);
+                                        }
+                                    }
+                                    MemberBuiltin::String(StringBuiltin::Slice) => {
+                                        for arg in args.args.iter().take(2) {
+                                            self.expect_member_number_arg(field, arg, *span);
+                                        }
                                     }
                                     MemberBuiltin::ProcessCommand(ProcessCommandBuiltin::Env)
                                         if args.args.len() >= 2 =>
